@@ -14,11 +14,10 @@ the same hash at height h agree below h" is then a lemma about `List.drop`, not 
 hash commits to (timestamp, the wallet-relevant transactions of the block) is a function of the id (`Content`).
 A stored hash is `Hash = Option BlockId`: `none` is the all-zero hash, which is not the hash of any block.
 
-QUIRK mirrored (finding, see notes/C15.md): `disconnectBlock` builds `bs := BlockStamp{Height: b.Height-1}`, assigns
-the parent's hash to `b.Hash` instead of `bs.Hash`, and calls `SetSyncedTo(&bs)`: the synced-to hash and the hash
-remembered for height `b.Height-1` become all-zero.  `Cfg.fixDisc = false` is the code as it is; `true` is the code
-with `bs.Hash = *hash` (repo-patches/fix-C15-disconnect-hash.diff).  The harness probes the real code for which
-of the two it is running and passes the flag to the driver.
+HISTORY: `disconnectBlock` used to assign the parent's hash to `b.Hash` instead of `bs.Hash`, which stored an
+all-zero hash as synced-to hash and as remembered hash of height `b.Height-1`; found by this engine, fixed in /repo
+(fc5593c).  The model follows the fixed code; reverting the fix is a Go↔model disagreement and an oracle violation
+(notes/C15.md).  The all-zero hash is still representable because malformed input could store it.
 -/
 namespace SyncTip
 
@@ -54,9 +53,8 @@ deriving DecidableEq, Repr, Inhabited
 def stampOf (C : Content) (b : BlockId) : Stamp := ⟨b.length, some b, C.time b⟩
 
 structure Cfg where
-  W       : Nat       -- waddrmgr.MaxReorgDepth
-  C       : Content
-  fixDisc : Bool      -- false: disconnectBlock as in the code (zero hash); true: with `bs.Hash = *hash`
+  W : Nat       -- waddrmgr.MaxReorgDepth
+  C : Content
 
 inductive Err where
   | blockNotFound   -- waddrmgr.ErrBlockNotFound
@@ -122,8 +120,8 @@ def disconnectBlock (cfg : Cfg) (w : Wallet) (b : Stamp) : Except Err Wallet :=
           | none => .error .blockNotFound
           | some none => .error .backend                    -- GetBlockHeader(000…0)
           | some (some prev) =>
-            -- bs := BlockStamp{Height: b.Height-1}; b.Hash = *hash (sic); bs.Timestamp = header.Timestamp
-            let bs : Stamp := ⟨h', if cfg.fixDisc then some prev else none, cfg.C.time prev⟩
+            -- bs := BlockStamp{Height: b.Height-1}; bs.Hash = *hash; bs.Timestamp = header.Timestamp
+            let bs : Stamp := ⟨h', some prev, cfg.C.time prev⟩
             match putSyncedTo cfg.W w bs with
             | .error e => .error e
             | .ok w' => .ok (rollbackTxs w' (h' + 1))      -- TxStore.Rollback(b.Height)
@@ -305,17 +303,18 @@ def rescanNtfns (C : Content) (tip : BlockId) (from_ : Nat) : List Ntfn :=
     ++ [.rescanFinished tip tip.length]
 
 /-- `syncWithChain` of a freshly opened wallet (birthday block set) against a backend with best chain `tip`:
-    recovery first when `recW > 0`, then the rollback loop, then the rescan.  `false` ⇒ `syncWithChain` returned an
-    error and the wallet retries later (a failed rollback transaction leaves the database unchanged; completed
-    recovery batches stay). -/
+    the rollback loop, then recovery when `recW > 0`, then the rescan.  (Recovery used to run BEFORE the rollback
+    loop and hid an offline reorg from it — found by this engine, repo-patches/fix-C15-startup-rollback-before-recovery.diff.)
+    `false` ⇒ `syncWithChain` returned an error and the wallet retries later (a failed rollback transaction leaves
+    the database unchanged; completed recovery batches stay). -/
 def startup (cfg : Cfg) (recW batch : Nat) (w : Wallet) (tip : BlockId) : Wallet × Bool :=
   let w0 := { w with chainSynced := false }
-  let (w1, ok) := if recW > 0 then recoveryRun cfg batch tip (tip.length + 1) w0 else (w0, true)
-  if ok = false then (w1, false)
-  else
-    match startupRollback cfg w1 tip with
-    | .error _ => (w1, false)
-    | .ok w2 => (process cfg w2 (rescanNtfns cfg.C tip w2.syncedTo.height), true)
+  match startupRollback cfg w0 tip with
+  | .error _ => (w0, false)
+  | .ok w1 =>
+    let (w2, ok) := if recW > 0 then recoveryRun cfg batch tip (tip.length + 1) w1 else (w1, true)
+    if ok = false then (w2, false)
+    else (process cfg w2 (rescanNtfns cfg.C tip w2.syncedTo.height), true)
 
 /-- A wallet that has completed its first sync against a backend that only has the genesis block. -/
 def genesisWallet (C : Content) : Wallet :=
